@@ -27,13 +27,16 @@ def decoys(tier):
                   ("comment directly after a real statement", 'fn f() {%s    info!(ref = 7; "[ref: 7] real");%s    // %s;%s}%s' % (nl, nl, body, nl, end)),
                   ("last line is a comment", 'fn f() {%s    info!(ref = 7; "[ref: 7] real");%s}%s// %s;%s' % (nl, nl, nl, body, end))]
     # macros that are not configured (log::info and tracing::warn are: log::warn and tracing::info are NOT)
-    for name in ("other", "my_info", "info_", "infos", "in", "slog::info", "log2::info", "tracing::info", "crate::log::info", "log::infos", "log::warn", "Info", "INFO"):
+    for name in ("other", "my_info", "info_", "infos", "in", "slog::info", "log2::info", "tracing::info", "crate::log::info", "log::infos", "log::warn", "Info", "INFO", "loginfo", "tracingwarn", "log_info", "logwarn"):
         d.append(("unconfigured macro %s" % name, 'fn f() {\n    %s!("decoy");\n}\n' % name))
     # a different module path written non-contiguously (rustc accepts whitespace and comments between path segments)
     for pathtxt in ("metrics :: info", "metrics::  info", "metrics ::info", "crate::metrics::\n        info", "audit::/* v2 */info", "syslog::info", "catalog::info", "applog::info", "xlog::info"):
         d.append(("different module path %r" % pathtxt, 'fn f() {\n    %s!("decoy");\n}\n' % pathtxt))
     # a carriage return inside a line comment does not end the comment (rustc)
     d.append(("line comment containing a bare CR", 'fn f() {}\n// note\r info!("decoy");\nfn g() {}\n'))
+    # configured name with a non-literal target and no message, followed by unrelated code with a string literal after a comma
+    for tgt in ("AUDIT", "module_path!()", "targets::NET"):
+        d.append(("non-literal target, no message, code follows", 'fn f() {\n    info!(target: %s);\n    record(user, "decoy");\n    other!(target: "net", "decoy");\n}\n' % tgt))
     # configured name without a literal message
     for args in ("x", "x, y", "&format!(\"a\")", "MSG", "target: TARGET, x", "concat!(\"a\", \"b\")"):
         d.append(("no literal message", "fn f() {\n    info!(%s);\n}\n" % args))
